@@ -93,6 +93,7 @@ def _real_clock(ctx, svc, attrs, k, ival, first_at, what):
     t0 = []
 
     async def main():
+        await trio.sleep(0.3 * interval + 3)  # services are not started at a multiple of their interval
         t0.append(trio.current_time())
         with trio.move_on_after((k - 0.5) * interval + (interval if first_at else 0)):
             await svc.run()
